@@ -157,7 +157,11 @@ impl Debug for TcpConnectionMeta {
             .field("client_address", &self.client_address)
             .field("destination", &self.destination)
             .field("auth", &self.auth.as_ref().map(|_| "scrubbed"))
-            .field("tls_domain", &self.tls_domain)
+            // with SNI authentication the first label is the client's credentials
+            .field(
+                "tls_domain",
+                &crate::net_utils::scrub_sni(self.tls_domain.clone()),
+            )
             .field("user_agent", &self.user_agent)
             .finish()
     }
